@@ -411,7 +411,7 @@ static void lib_release_all()
 {
     std::vector<std::pair<void *, size_t>> v;
     for (auto &kv : *g_live) v.push_back(kv);
-    g_live->clear();
+    if (g_live->bucket_count() > 4096) { delete g_live; g_live = new std::unordered_map<void *, size_t>(); } else g_live->clear();
     for (auto &kv : v) { if (g_bigs->count(kv.first)) { munmap(kv.first, kv.second); g_bigs->erase(kv.first); } else __real_free(kv.first); }
 }
 
@@ -437,6 +437,13 @@ static void case_reset()
 
 // run one case: reset, run, turn a foreign-clause failure into "abandoned"
 static void run_case(const uint8_t *d, size_t n);
+
+// clear() of an unordered container memsets its whole bucket array: after one scale run every later clear()
+// of a static container would cost milliseconds. Give the memory back instead.
+template <class S> static void fresh_clear(S &s)
+{
+    if (s.bucket_count() > 4096) { S tmp; s.swap(tmp); } else s.clear();
+}
 
 // ---------------------------------------------------------------- G1 scope
 struct Scope {
